@@ -23,6 +23,7 @@ NFromBitsLE(bits) == CHOOSE x \in STRING : TRUE  \* the natural denoted by a 0/1
 NBitLen(a)    == CHOOSE x \in Nat : TRUE         \* bit length (0 for 0)
 NHex(a)       == CHOOSE x \in STRING : TRUE      \* "0x" + minimal lower-case hex ("0x0" for 0)
 NOfInt(i)     == CHOOSE x \in STRING : TRUE      \* decimal string of a TLC integer
+NFromHex(h)   == CHOOSE x \in STRING : TRUE      \* natural denoted by "0x..." (any case)
 NToInt(a)     == CHOOSE x \in Nat : TRUE         \* TLC integer of a small natural (< 2^31)
 NByteLen(a)   == CHOOSE x \in Nat : TRUE         \* length of the minimal big-endian byte string (0 for 0)
 ====
